@@ -66,7 +66,7 @@ sync_block!(S31; [a: u32, b: u8, c: f32]; [o1: u32]; |a, b, c| f1(a, b, c); u32)
 sync_block!(S32; [a: u32, b: u8, c: f32]; [o1: u32, o2: u64]; |a, b, c| (f1(a, b, c), f2(a, b, c)); (u32, u64));
 sync_block!(S33; [a: u32, b: u8, c: f32]; [o1: u32, o2: u64, o3: f32]; |a, b, c| (f1(a, b, c), f2(a, b, c), f3(a, b, c)); (u32, u64, f32));
 
-/// sync_tag with two inputs and two outputs: forwards the first input's tags
+/// sync_tag with two inputs and two outputs: forwards both inputs' tags
 /// and adds a marker on samples divisible by 5.
 #[derive(rustradio_macros::Block)]
 #[rustradio(new, sync_tag)]
@@ -82,9 +82,10 @@ pub struct T22 {
     k: u32,
 }
 impl T22 {
-    fn process_sync_tags<'a>(&mut self, a: u32, at: &'a [Tag], b: u8, _bt: &'a [Tag]) -> (u32, u64, Cow<'a, [Tag]>) {
+    fn process_sync_tags<'a>(&mut self, a: u32, at: &'a [Tag], b: u8, bt: &'a [Tag]) -> (u32, u64, Cow<'a, [Tag]>) {
         let _ = self.k;
         let mut t = at.to_vec();
+        t.extend(bt.iter().cloned());
         if a % 5 == 0 {
             t.push(Tag::new(0, "five", TagValue::U64(a as u64)));
         }
@@ -160,14 +161,14 @@ struct Wired {
     tagged: bool,
 }
 
-fn wire(shape: usize, a: Vec<u32>, b: Vec<u8>, c: Vec<f32>, tags: Vec<TagRec>) -> Wired {
+fn wire(shape: usize, a: Vec<u32>, b: Vec<u8>, c: Vec<f32>, tags: Vec<TagRec>, tags_b: Vec<TagRec>) -> Wired {
     let (name, nin, nout) = SHAPES[shape];
     let (pa, ra) = StreamIn::new(a.clone(), tags);
     let mut ins: Vec<Box<dyn InPort>> = vec![pa];
     let mut rb = None;
     let mut rc = None;
     if nin >= 2 {
-        let (p, r) = StreamIn::new(b.clone(), vec![]);
+        let (p, r) = StreamIn::new(b.clone(), tags_b);
         ins.push(p);
         rb = Some(r);
     }
@@ -300,13 +301,17 @@ impl Check for DeriveCheck {
         let b: Vec<u8> = (0..lb).map(|i| (i * 13 + 1) as u8).collect();
         let c: Vec<f32> = (0..lc).map(|i| i as f32 * 0.25).collect();
         let tags = gen_tags(src, la, cap);
+        // Tags on the second input as well: a sync block forwards only the
+        // first input's, a sync_tag block hands each input's to the user code
+        // (T22 forwards both) - also in windows where the first has none.
+        let tags_b = if nin >= 2 { gen_tags(src, lb, cap) } else { vec![] };
         ctx.ev(|| format!("C19 {name} lens {la}/{lb}/{lc} stream {small}"));
         if ctx.sample.is_none() {
             ctx.sample = Some(json!({"block": name, "inputs": nin, "outputs": nout, "input_lengths": [la, lb, lc], "stream_bytes": small}));
         }
         let r = solo.with(|| -> RunResult {
             rustradio::verif::set_stream_size(small);
-            let mut w = wire(shape_sel, a, b, c, tags);
+            let mut w = wire(shape_sel, a, b, c, tags, tags_b);
             rustradio::verif::set_stream_size(0);
             for p in w.case.ins.iter() {
                 let cp = p.capacity();
@@ -444,6 +449,12 @@ impl Check for DeriveCheck {
             }
             // Tags: first input's tags (plus the marker for sync_tag) on every output.
             let mut want: Vec<TagRec> = w.case.in_typed::<u32>(0).tags.iter().filter(|t| (t.0 as usize) < n).cloned().collect();
+            if w.tagged && w.nin >= 2 {
+                want.extend(w.case.in_typed::<u8>(1).tags.iter().filter(|t| (t.0 as usize) < n).cloned());
+                if w.case.in_typed::<u8>(1).tags.iter().any(|t| (t.0 as usize) < n) {
+                    ctx.count("second_input_tags_forwarded_by_sync_tag");
+                }
+            }
             if w.tagged {
                 for i in 0..n {
                     if w.a[i] % 5 == 0 {
